@@ -576,6 +576,10 @@ var playerKeys = []string{"player", "score", "ping", "team", "vip", "coopstatus"
 
 // RandValue draws a backslash-free value (never the words `queryid`, `statusresponse`); latin-1 high bytes when latin.
 func RandValue(rng interface{ Intn(int) int }, latin bool) []byte {
+	// a value that spells a word of the framing (a player may be called `eof`): between backslashes it is a value like any other
+	if rng.Intn(40) == 0 {
+		return []byte([]string{"eof", "eof", "EOF", "eof!", "final!", "statusresponse1"}[rng.Intn(6)])
+	}
 	n := 0
 	switch rng.Intn(6) {
 	case 0:
